@@ -56,7 +56,8 @@ type Case struct {
 }
 
 type Script struct {
-	Cases []Case `json:"cases"`
+	Cases  []Case   `json:"cases"`
+	Events []EvCase `json:"events"`
 }
 
 type RecvItem struct {
@@ -270,6 +271,12 @@ func (r *DRunner) emit(l *DLine) {
 	if l.Seq == nil {
 		l.Seq = []int{}
 	}
+	b, _ := json.Marshal(l)
+	r.Out.Write(b)
+	r.Out.WriteByte('\n')
+}
+
+func (r *DRunner) emitAny(l any) {
 	b, _ := json.Marshal(l)
 	r.Out.Write(b)
 	r.Out.WriteByte('\n')
